@@ -1,9 +1,23 @@
 (* C02 - The output is exactly the transitive closure of the inputs.  Statements and `exact` only. *)
 From Coq Require Import List String Bool NArith.
 From RC Require Import lib.Pep440 lib.Name model.Merge model.Graph model.Solver model.Explain model.Check
-                       proofs.CheckP proofs.WitnessSolver proofs.SolverStatements.
+                       proofs.CheckP proofs.ReachP proofs.WitnessSolver proofs.SolverStatements.
 Import ListNotations.
 Open Scope string_scope.
+
+(* Minimality, for ALL graphs: whatever is written out is reachable from the input roots through
+   dependency links - nothing left over from abandoned candidates is emitted unless a link from
+   the roots still leads to it. *)
+Theorem C02_emitted_only_reachable :
+  forall g roots x, In x (emitted g roots) -> reach g roots x.
+Proof. exact emitted_sound. Qed.
+Print Assumptions C02_emitted_only_reachable.
+
+(* ... and whenever the closure checker accepts, the traversal returns exactly the reachable set. *)
+Theorem C02_traversal_exact_when_checker_accepts :
+  forall g roots, closed_b g roots = true -> forall x, In x (visit_nodes g roots) <-> reach g roots x.
+Proof. exact visit_nodes_exact_when_closed. Qed.
+Print Assumptions C02_traversal_exact_when_checker_accepts.
 
 (* The executable closure checker evaluated on every correspondence outcome is sound: every
    emitted node is solved and every link of a root or emitted node leads to an emitted node. *)
